@@ -21,10 +21,11 @@ type batch struct {
 	li     int // index into layouts
 	layout *layoutT
 	rots   []int // rotations run in this batch
+	lm     int   // listener mode
 }
 
-func newBatch(sigs []*sigT, li int, rots []int) *batch {
-	b := &batch{sigs: sigs, li: li, layout: &layouts[li], rots: rots}
+func newBatch(sigs []*sigT, li int, rots []int, lm int) *batch {
+	b := &batch{sigs: sigs, li: li, layout: &layouts[li], rots: rots, lm: lm}
 	for _, s := range sigs {
 		var plain *unit
 		for _, st := range stylesFor(s) {
@@ -130,6 +131,7 @@ type replayT struct {
 	K      int      `json:"rotation"`
 	Depth  int      `json:"depth"`
 	Layout string   `json:"layout,omitempty"`
+	Lis    int      `json:"listeners,omitempty"`
 }
 
 type runner struct {
@@ -148,7 +150,7 @@ func (r *runner) viol(w *world, u *unit, dir string, k int, sig, what string) {
 	if len(r.res.Viols) >= 24 {
 		return
 	}
-	rp := replayT{Engine: w.eng, Style: u.st, Dir: dir, K: k, Depth: r.depth, Layout: w.b.layout.Name}
+	rp := replayT{Engine: w.eng, Style: u.st, Dir: dir, K: k, Depth: r.depth, Layout: w.b.layout.Name, Lis: w.b.lm}
 	for _, t := range u.sig.P {
 		rp.P = append(rp.P, tname(t))
 	}
@@ -156,7 +158,7 @@ func (r *runner) viol(w *world, u *unit, dir string, k int, sig, what string) {
 		rp.R = append(rp.R, tname(t))
 	}
 	r.res.Viols[full] = &violT{Sig: full, N: 1, Replay: rp,
-		What: fmt.Sprintf("%s, %s %s, %s, rotation %d%s%s: %s", w.eng, u.st, u.sig, dir, k, depthStr(dir, r.depth), layoutStr(w.b.layout), what)}
+		What: fmt.Sprintf("%s, %s %s, %s, rotation %d%s%s: %s", w.eng, u.st, u.sig, dir, k, depthStr(dir, r.depth), layoutStr(w.b), what)}
 }
 
 func slotClass(i int, ts []byte) string {
@@ -241,11 +243,15 @@ func (w *world) fn(name string) (f api.Function, perr string) {
 	return f, ""
 }
 
-func layoutStr(l *layoutT) string {
-	if l.Name == "plain" {
-		return ""
+func layoutStr(b *batch) string {
+	s := ""
+	if b.layout.Name != "plain" {
+		s = ", module layout " + b.layout.Name
 	}
-	return ", module layout " + l.Name
+	if b.lm != lmNone {
+		s += ", function listeners " + listenerModes[b.lm]
+	}
+	return s
 }
 
 func depthStr(dir string, d int) string {
@@ -274,6 +280,7 @@ func (w *world) reset(k int) {
 	w.cbUnit, w.cbDepth, w.cbStack = nil, 0, false
 	w.log = w.log[:0]
 	w.cbErr, w.cbInner, w.cbDone, w.hostErr = "", nil, false, ""
+	w.recs, w.lstack, w.lisErr = w.recs[:0], w.lstack[:0], ""
 }
 
 // invoke calls f with params through Call or CallWithStack and returns the raw result slots.
@@ -666,7 +673,11 @@ func (r *runner) runBatch(b *batch) {
 			hbs[hm] = w.define(hbs[hm], u)
 		}
 		for _, hm := range hnames {
-			if _, err := hbs[hm].Instantiate(ctx); err != nil {
+			hctx := ctx
+			if b.lm != lmNone {
+				hctx = w.listenerCtx(ctx)
+			}
+			if _, err := hbs[hm].Instantiate(hctx); err != nil {
 				fatalf("host module %s rejected (%s): %v", hm, eng, err)
 			}
 		}
@@ -675,7 +686,11 @@ func (r *runner) runBatch(b *batch) {
 				fatalf("provider module rejected (%s): %v", eng, err)
 			}
 		}
-		g, err := w.rt.InstantiateWithConfig(ctx, b.bin, wazero.NewModuleConfig().WithName("guest"))
+		gctx := ctx
+		if b.lm == lmAll {
+			gctx = w.listenerCtx(ctx)
+		}
+		g, err := w.rt.InstantiateWithConfig(gctx, b.bin, wazero.NewModuleConfig().WithName("guest"))
 		if err != nil {
 			// a by-construction valid module: a harness error if every engine refuses it, a finding about the
 			// refusing engine if another one accepts and runs it
